@@ -5,13 +5,14 @@ p = '/verif/DESIGN.md'
 s = open(p).read()
 k = json.load(open('/verif/known_findings.json'))
 rows = ["| First seen by | Commit | What failed |", "|---|---|---|"]
-for f in k['findings']:
+fixed = [f for f in k['findings'] if f['status'] == 'fixed']
+for f in fixed:
     what = f['what'].split(' ', 3)[3]
     rows.append(f"| {f['property']} | `{f['commit']}` | {what} |")
 a = s.index("<!-- FINDINGS-TABLE-BEGIN")
 a = s.index("\n", a) + 1
 b = s.index("<!-- FINDINGS-TABLE-END -->")
 s = s[:a] + "\n".join(rows) + "\n" + s[b:]
-s = re.sub(r"the \d+ genuine defects the checks found", "the %d genuine defects the checks found" % len(k['findings']), s)
+s = re.sub(r"the \d+ genuine defects the checks found", "the %d genuine defects the checks found" % len(fixed), s)
 open(p, 'w').write(s)
-print(len(k['findings']), "findings")
+print(len(fixed), "fixed findings")
